@@ -110,6 +110,16 @@ pub enum Op {
 pub struct BScenario {
     pub hash_seed: u64,
     pub ops: Vec<Op>,
+    /// src/g.y and src/g.l are symbolic links to files in another directory (a shared or
+    /// vendored grammar): edits and touches go to the target, the link itself never changes
+    #[serde(default)]
+    pub symlinked_sources: bool,
+    /// A *layout history* (then `ops` is empty): the sources (g0 / l0, never edited) live in
+    /// `src/<gdir>/g.y` and `src/<ldir>/g.l` and are moved from one step to the next; every step
+    /// builds with `grammar_in_src_dir` / `lexer_in_src_dir` into one persistent OUT_DIR and, as
+    /// the reference, into an empty one.
+    #[serde(default)]
+    pub layouts: Vec<(String, String)>,
 }
 
 #[derive(Clone, Debug, Serialize, Deserialize)]
@@ -130,7 +140,30 @@ pub struct BReport {
     pub nontrivial: bool,
 }
 
+/// 220 tokens: the cache comment at the end of the generated parser (one entry per token) grows
+/// to several KiB.
+const MANY: usize = 220;
+fn many_tokens_grammar() -> String {
+    let mut s = String::from("%start Expr\n%%\nExpr -> u64: Expr \"+\" Term { $1 + $3 } | Term { $1 } ;\nTerm -> u64: Term \"*\" Factor { $1 * $3 } | Factor { $1 } ;\nFactor -> u64: \"(\" Expr \")\" { $2 } | \"INT\" { 0 } | Kw { $1 } ;\nKw -> u64:");
+    for i in 0..MANY {
+        s.push_str(&format!("{} \"K{i}\" {{ {i} }}", if i == 0 { "" } else { " |" }));
+    }
+    s.push_str(" ;\n");
+    s
+}
+fn many_tokens_lexer() -> String {
+    let mut s = String::from("%%\n[0-9]+ \"INT\"\n\\+ \"+\"\n\\* \"*\"\n\\( \"(\"\n\\) \")\"\n");
+    for i in 0..MANY {
+        s.push_str(&format!("k{i}_ \"K{i}\"\n"));
+    }
+    s.push_str("[ \\t\\n]+ ;\n");
+    s
+}
+
 fn grammar_text(name: &str, header: bool) -> String {
+    if name == "g11-many-tokens" {
+        return if header { format!("{HDR}{}", many_tokens_grammar()) } else { many_tokens_grammar() };
+    }
     let body = GRAMMARS.iter().chain(BROKEN_GRAMMARS.iter()).find(|(n, _)| *n == name).map(|(_, t)| *t).unwrap_or("");
     if name == "gbh-bad-header" {
         return format!("%grmtools{{yacckind: Nonsense}}\n{}", GRAMMARS[0].1);
@@ -144,6 +177,9 @@ fn grammar_text(name: &str, header: bool) -> String {
     }
 }
 fn lexer_text(name: &str) -> String {
+    if name == "l5-many-tokens" {
+        return many_tokens_lexer();
+    }
     LEXERS.iter().chain(BROKEN_LEXERS.iter()).find(|(n, _)| *n == name).map(|(_, t)| t.to_string()).unwrap_or_default()
 }
 
@@ -203,6 +239,9 @@ fn norm_hash(b: &[u8], dir: &Path) -> u64 {
 }
 
 pub fn execute(exe: &Path, sc: &BScenario, dir: &Path) -> BReport {
+    if !sc.layouts.is_empty() {
+        return execute_layouts(exe, sc, dir);
+    }
     let mut rep = BReport::default();
     let _ = std::fs::remove_dir_all(dir);
     let src = dir.join("src");
@@ -218,6 +257,18 @@ pub fn execute(exe: &Path, sc: &BScenario, dir: &Path) -> BReport {
     // initial sources
     let mut gname = ("g0-calc".to_string(), true);
     let mut lname = "l0".to_string();
+    if sc.symlinked_sources {
+        let shared = dir.join("shared");
+        std::fs::create_dir_all(&shared).unwrap();
+        for (link, name) in [(&gy, "g.y"), (&gl, "g.l")] {
+            std::fs::write(shared.join(name), "").unwrap();
+            std::os::unix::fs::symlink(shared.join(name), link).unwrap();
+            // the link's own timestamps come from the simulated clock too (lstat sees these)
+            let ft = FileTime::from_unix_time(EPOCH_S + (now / 1_000_000_000) as i64, (now % 1_000_000_000) as u32);
+            let _ = filetime::set_symlink_file_times(link, ft, ft);
+        }
+        rep.probes.insert("histories_with_symlinked_sources", 1);
+    }
     std::fs::write(&gy, grammar_text(&gname.0, gname.1)).unwrap();
     std::fs::write(&gl, lexer_text(&lname)).unwrap();
     stamp(&gy, now);
@@ -353,6 +404,7 @@ pub fn execute(exe: &Path, sc: &BScenario, dir: &Path) -> BReport {
                     fsize_mode: fault.as_ref().map(|f| f.0.clone()),
                     prelude: vec![],
                     lex_probe: None,
+                    src_dir_mode: None,
                 };
                 let (code, sig, res) = run_build_child_sig(exe, &mk_spec(&py, &pl, fault), dir, "b");
                 let crashed = sig.is_some() || (code != Some(0));
@@ -598,6 +650,13 @@ pub fn generate(r: &mut Rng, max_ops: usize) -> BScenario {
         }
         let roll = r.below(100);
         let op = match roll {
+            0..=13 if r.chance(7) => {
+                // the large grammar comes with the lexer that knows its tokens
+                if r.chance(85) {
+                    ops.push(Op::EditLexer("l5-many-tokens".into()));
+                }
+                Op::EditGrammar("g11-many-tokens".into(), r.chance(80))
+            }
             0..=13 => {
                 let (n, _) = *r.pick(GRAMMARS);
                 if r.chance(50) {
@@ -670,12 +729,111 @@ pub fn generate(r: &mut Rng, max_ops: usize) -> BScenario {
     if !matches!(ops.last(), Some(Op::Build(_))) {
         ops.push(Op::Build(None));
     }
-    BScenario { hash_seed: r.next(), ops }
+    let hash_seed = r.next();
+    BScenario { hash_seed, ops, symlinked_sources: r.chance(20), layouts: vec![] }
+}
+
+pub fn generate_layouts(r: &mut Rng) -> BScenario {
+    const DIRS: [&str; 4] = ["", "a", "b", "a/deep"];
+    let n = 2 + r.below(3) as usize;
+    let layouts = (0..n).map(|_| if r.chance(35) { let d = *r.pick(&DIRS); (d.to_string(), d.to_string()) } else { (r.pick(&DIRS).to_string(), r.pick(&DIRS).to_string()) }).collect();
+    BScenario { hash_seed: r.next(), ops: vec![], symlinked_sources: false, layouts }
+}
+
+fn execute_layouts(exe: &Path, sc: &BScenario, dir: &Path) -> BReport {
+    let mut rep = BReport::default();
+    let _ = std::fs::remove_dir_all(dir);
+    let krate = dir.join("crate");
+    let out = dir.join("out");
+    let clean = dir.join("clean");
+    std::fs::create_dir_all(krate.join("src")).unwrap();
+    std::fs::create_dir_all(&out).unwrap();
+    let rel = |d: &str, f: &str| if d.is_empty() { f.to_string() } else { format!("{d}/{f}") };
+    let mut at: Option<(String, String)> = None;
+    let mut lh = fnv(b"B-layout");
+    for (oi, (gd, ld)) in sc.layouts.iter().enumerate() {
+        // move (or create) the sources
+        let (gp, lp) = (krate.join("src").join(rel(gd, "g.y")), krate.join("src").join(rel(ld, "g.l")));
+        std::fs::create_dir_all(gp.parent().unwrap()).unwrap();
+        std::fs::create_dir_all(lp.parent().unwrap()).unwrap();
+        match &at {
+            Some((og, ol)) => {
+                if og != gd {
+                    std::fs::rename(krate.join("src").join(rel(og, "g.y")), &gp).unwrap();
+                }
+                if ol != ld {
+                    std::fs::rename(krate.join("src").join(rel(ol, "g.l")), &lp).unwrap();
+                }
+            }
+            None => {
+                std::fs::write(&gp, grammar_text("g0-calc", true)).unwrap();
+                std::fs::write(&lp, lexer_text("l0")).unwrap();
+            }
+        }
+        at = Some((gd.clone(), ld.clone()));
+        stamp(&gp, 1_000_000_000);
+        stamp(&lp, 1_000_000_000);
+        let spec = |out_dir: &Path| BuildSpec {
+            hash_seed: sc.hash_seed.wrapping_add(oi as u64),
+            grammar_path: rel(gd, "g.y"),
+            lexer_path: rel(ld, "g.l"),
+            parser_out: String::new(),
+            lexer_out: String::new(),
+            parser: ParserOpts::default(),
+            lexer: LexerOpts::default(),
+            flow: "combined".into(),
+            token_map_dir: None,
+            fsize_limit: None,
+            fsize_mode: None,
+            prelude: vec![],
+            lex_probe: None,
+            src_dir_mode: Some((krate.to_str().unwrap().into(), out_dir.to_str().unwrap().into())),
+        };
+        rep.builds += 1;
+        let (code, _sig, res) = run_build_child_sig(exe, &spec(&out), dir, "b");
+        let ok = code == Some(0) && res.as_ref().map_or(false, |r| r.ok);
+        let _ = std::fs::remove_dir_all(&clean);
+        std::fs::create_dir_all(&clean).unwrap();
+        let (ccode, _csig, cres) = run_build_child_sig(exe, &spec(&clean), dir, "c");
+        let clean_ok = ccode == Some(0) && cres.as_ref().map_or(false, |r| r.ok);
+        *rep.probes.entry("layout_builds").or_insert(0) += 1;
+        if gd != ld {
+            *rep.probes.entry("layout_builds_with_grammar_and_lexer_in_different_directories").or_insert(0) += 1;
+        }
+        lh = fnv_add(lh, format!("{oi}|{ok}|{clean_ok}").as_bytes());
+        let err = |r: &Option<crate::buildstep::BuildResult>| r.as_ref().map(|r| r.error.chars().take(160).collect::<String>());
+        if ok != clean_ok {
+            rep.findings.push(BFinding { class: "outcome-differs-from-clean-build".into(), detail: format!("layout step {oi} (grammar in src/{gd:?}, lexer in src/{ld:?}; grammar_in_src_dir / lexer_in_src_dir): build into the OUT_DIR of the earlier steps succeeded: {ok}, into an empty OUT_DIR: {clean_ok} ({:?} / {:?})", err(&res), err(&cres)), known: None, at_op: oi });
+        } else if ok {
+            rep.nontrivial = true;
+            for (what, f) in [("parser", rel(gd, "g.y.rs")), ("lexer", rel(ld, "g.l.rs"))] {
+                let (a, b) = (std::fs::read(out.join(&f)).ok(), std::fs::read(clean.join(&f)).ok());
+                if a.is_none() || a.as_ref().map(|x| norm_hash(x, dir)) != b.as_ref().map(|x| norm_hash(x, dir)) {
+                    rep.findings.push(BFinding { class: format!("{what}-output-differs-from-clean-build"), detail: format!("layout step {oi}: OUT_DIR/{f} {} after the incremental build, {} after the clean one, contents differ or one is missing", a.map_or("absent".into(), |x| format!("{} bytes", x.len())), b.map_or("absent".into(), |x| format!("{} bytes", x.len()))), known: None, at_op: oi });
+                }
+            }
+        }
+    }
+    rep.log_hash = lh;
+    rep
 }
 
 fn shrink(exe: &Path, sc: &BScenario, class: &str, dir: &Path) -> BScenario {
     let fails = |c: &BScenario| execute(exe, c, dir).findings.iter().any(|f| f.known.is_none() && f.class == class);
     let mut cur = sc.clone();
+    if !cur.layouts.is_empty() {
+        let mut i = 0;
+        while i < cur.layouts.len() && cur.layouts.len() > 1 {
+            let mut c = cur.clone();
+            c.layouts.remove(i);
+            if fails(&c) {
+                cur = c;
+            } else {
+                i += 1;
+            }
+        }
+        return cur;
+    }
     // cut after the failing op
     if let Some(f) = execute(exe, &cur, dir).findings.iter().find(|f| f.known.is_none() && f.class == class) {
         let mut c = cur.clone();
@@ -785,9 +943,10 @@ pub fn check_main(tier: &str) -> i32 {
             let exe = &exe;
             s.spawn(move || {
                 let mut i = o;
-                while i < count {
+                // indices beyond `count` are layout histories (*_in_src_dir, sources moved)
+                while i < count + count / 16 {
                     let mut r = Rng::new(mix(seed, ENGINE_TAG, i));
-                    let sc = generate(&mut r, max_ops);
+                    let sc = if i < count { generate(&mut r, max_ops) } else { generate_layouts(&mut r) };
                     let rep = execute(exe, &sc, &scratch.join(format!("h{i}")));
                     let mut t = tot.lock().unwrap();
                     t.builds += rep.builds;
@@ -882,7 +1041,7 @@ pub fn check_main(tier: &str) -> i32 {
         seed,
         evaluations: count,
         distinct_nontrivial: t.digests.len() as u64,
-        rule: format!("history i of stream VERIF_SEED: <= {max_ops} operations from {{edit grammar ({} valid, 4 invalid variants, with/without %grmtools header), edit lexer (5 valid, 3 invalid), set a parser option ({} keys), set a lexer option ({} keys: every CTLexerBuilder setter except lexerkind), switch flow, tick 0/1ns/1us/1s/1h, touch, delete an output, build with no fault / short-write error / crash at byte n}}; after every build a clean build of the same sources and settings into an empty directory. Non-trivial = the history contains a successful build after a change to the parser's inputs; distinct = distinct operation sequence.", GRAMMARS.len(), POPT_POOL.len(), LOPT_POOL.len()),
+        rule: format!("history i of stream VERIF_SEED: <= {max_ops} operations from {{edit grammar ({} valid, 4 invalid variants, with/without %grmtools header), edit lexer (5 valid, 3 invalid), set a parser option ({} keys), set a lexer option ({} keys: every CTLexerBuilder setter except lexerkind), switch flow, tick 0/1ns/1us/1s/1h, touch, delete an output, build with no fault / short-write error / crash at byte n}}; after every build a clean build of the same sources and settings into an empty directory. One history in five reaches its sources through symbolic links (edits go to the target); one grammar has 220 tokens (a cache comment of several KiB). A further {} *layout histories* move the (unedited) sources between sub-directories of src/ and build with grammar_in_src_dir / lexer_in_src_dir into one persistent OUT_DIR and an empty one. Non-trivial = the history contains a successful build after a change to the parser's inputs; distinct = distinct operation sequence.", GRAMMARS.len() + 1, POPT_POOL.len(), LOPT_POOL.len(), count / 16),
         samples: t.samples.clone(),
         extra,
         assumptions: vec!["mtimes are the simulator's clock; backward or coarse file-system clocks are not modelled".into(), "one build per child process (the builders refuse a second build to the same path in one process)".into(), "byte equality is unmasked: all children share one lrpar/lrlex build and hence one embedded build timestamp".into()],
